@@ -243,7 +243,24 @@ pub fn c08(tier: Tier, seed: u64) -> Verdict {
 
 // ------------------------------------------------------------------------------------------ C09
 
-const ROUTES: [&str; 11] = ["from_str", "from_string", "from_ref_string", "from_box_str", "from_cow_borrowed", "from_cow_owned", "parse", "from_utf8", "string_to_lean_string", "from_static_str", "from_utf8_unchecked"];
+const ROUTES: [&str; 15] = [
+    "from_str",
+    "from_string",
+    "from_ref_string",
+    "from_box_str",
+    "from_cow_borrowed",
+    "from_cow_owned",
+    "parse",
+    "from_utf8",
+    "string_to_lean_string",
+    "from_static_str",
+    "from_utf8_unchecked",
+    // owned inputs whose own capacity is larger than their text
+    "from_string_with_spare_capacity",
+    "from_ref_string_with_spare_capacity",
+    "from_cow_owned_with_spare_capacity",
+    "string_with_spare_capacity_to_lean_string",
+];
 
 enum Input<'a> {
     Str(&'a str),
@@ -255,6 +272,16 @@ enum Input<'a> {
 
 fn prepare(route: usize, text: &str) -> Input<'_> {
     match route {
+        11 | 12 | 14 => {
+            let mut s = String::with_capacity(text.len() + 48);
+            s.push_str(text);
+            Input::String(s)
+        }
+        13 => {
+            let mut s = String::with_capacity(text.len() * 2 + 17);
+            s.push_str(text);
+            Input::Cow(Cow::Owned(s))
+        }
         0 | 6 | 7 | 10 => Input::Str(text),
         1 | 2 | 8 => Input::String(text.to_string()),
         3 => Input::BoxStr(text.to_string().into_boxed_str()),
@@ -268,8 +295,10 @@ fn prepare(route: usize, text: &str) -> Input<'_> {
 fn convert(route: usize, input: Input<'_>) -> LeanString {
     match (route, input) {
         (0, Input::Str(t)) => LeanString::from(t),
-        (1, Input::String(s)) => LeanString::from(s),
-        (2, Input::String(s)) => LeanString::from(&s),
+        (1 | 11, Input::String(s)) => LeanString::from(s),
+        (2 | 12, Input::String(s)) => LeanString::from(&s),
+        (14, Input::String(s)) => s.to_lean_string(),
+        (13, Input::Cow(c)) => LeanString::from(c),
         (3, Input::BoxStr(b)) => LeanString::from(b),
         (4 | 5, Input::Cow(c)) => LeanString::from(c),
         (6, Input::Str(t)) => LeanString::from_str(t).unwrap(),
